@@ -471,7 +471,7 @@ def reentrant_sample(ctx, n):
 def run(ctx):
     ctx.audit()
     reentrant_sample(ctx, 40 if not ctx.thorough() else 800)
-    n = 300 if not ctx.thorough() else 10000
+    n = 300 if not ctx.thorough() else 6000
     batch = []
     for c in CORPUS:
         c = copy.deepcopy(c)
